@@ -746,6 +746,290 @@ struct RunOut {
 }
 
 // ------------------------------------------------------------------------------------------------
+// the sharing clause, task by task: explicit schedules over a GATED scripted provider
+// ------------------------------------------------------------------------------------------------
+
+/// upstream exchanges of the gated provider: exchange k answers once gate k is released
+#[derive(Default)]
+struct Gates {
+    started: usize,
+    released: std::collections::HashSet<usize>,
+    wakers: Vec<(usize, Waker)>,
+}
+
+#[derive(Clone)]
+struct GProv {
+    gates: Arc<Mutex<Gates>>,
+}
+
+#[derive(Clone)]
+struct GHandle {
+    gates: Arc<Mutex<Gates>>,
+}
+
+struct GateFut {
+    gates: Arc<Mutex<Gates>>,
+    k: usize,
+}
+
+impl Future for GateFut {
+    type Output = ();
+    fn poll(self: Pin<&mut Self>, cx: &mut Context<'_>) -> Poll<()> {
+        let mut g = self.gates.lock().unwrap();
+        if g.released.contains(&self.k) {
+            Poll::Ready(())
+        } else {
+            let k = self.k;
+            g.wakers.push((k, cx.waker().clone()));
+            Poll::Pending
+        }
+    }
+}
+
+impl ConnectionProvider for GProv {
+    type Conn = GHandle;
+    type FutureConn = future::Ready<Result<GHandle, NetError>>;
+    type RuntimeProvider = SimRuntime;
+    fn new_connection(&self, _ip: IpAddr, _config: &ConnectionConfig, _cx: &PoolContext) -> Result<Self::FutureConn, NetError> {
+        Ok(future::ready(Ok(GHandle { gates: self.gates.clone() })))
+    }
+    fn runtime_provider(&self) -> &Self::RuntimeProvider {
+        &SimRuntime
+    }
+}
+
+impl DnsHandle for GHandle {
+    type Response = Pin<Box<dyn Stream<Item = Result<DnsResponse, NetError>> + Send>>;
+    type Runtime = SimRuntime;
+    fn send(&self, request: DnsRequest) -> Self::Response {
+        let k = {
+            let mut g = self.gates.lock().unwrap();
+            g.started += 1;
+            g.started
+        };
+        let gates = self.gates.clone();
+        Box::pin(once(async move {
+            GateFut { gates, k }.await;
+            // the answer says which upstream exchange produced it
+            let query = request.queries.first().cloned().unwrap_or_else(Query::root);
+            let mut m = Message::query();
+            m.metadata.id = request.metadata.id;
+            m.add_query(query.clone());
+            let mut m = m.into_response();
+            m.add_answer(Record::from_rdata(query.name.clone(), 60, RData::A(Ipv4Addr::new(10, 9, k as u8, 1).into())));
+            DnsResponse::from_message(m).map_err(NetError::from)
+        }))
+    }
+}
+
+#[derive(Clone, Copy, PartialEq, Eq, Debug)]
+enum SEv {
+    Start(usize),
+    Drop(usize),
+    Release(usize),
+    Poll(usize),
+}
+
+fn parse_share(t: &[&str]) -> Option<Vec<SEv>> {
+    if t.len() < 2 || t.len() > 25 {
+        return None;
+    }
+    let mut v = vec![];
+    for tok in &t[1..] {
+        let b = tok.as_bytes();
+        if b.len() != 2 {
+            return None;
+        }
+        let task = |c: u8| if (b'A'..=b'D').contains(&c) { Some((c - b'A') as usize) } else { None };
+        v.push(match b[0] {
+            b's' => SEv::Start(task(b[1])?),
+            b'd' => SEv::Drop(task(b[1])?),
+            b'p' => SEv::Poll(task(b[1])?),
+            b'r' if (b'1'..=b'8').contains(&b[1]) => SEv::Release((b[1] - b'0') as usize),
+            _ => return None,
+        });
+    }
+    let starts: Vec<usize> = v.iter().filter_map(|e| if let SEv::Start(x) = e { Some(*x) } else { None }).collect();
+    let mut d = starts.clone();
+    d.sort();
+    d.dedup();
+    if d.len() != starts.len() {
+        return None;
+    }
+    Some(v)
+}
+
+/// `share <ev>...` with ev = `s<X>` start task X (create its `send` future, poll it once), `d<X>` drop it,
+/// `r<k>` release the answer of upstream exchange k, `p<X>` poll X (resume it, possibly late); X ∈ A..D.
+/// One pool, one UDP server, identical queries, no clock involved.
+fn exec_share(line: &str, t: &[&str], rec: &mut Recorder) {
+    let Some(evs) = parse_share(t) else {
+        rec.case(line.to_string(), "bad-op".into());
+        rec.stat("bad-op");
+        return;
+    };
+    rec.stat("share_schedule");
+    type Fut = Pin<Box<dyn Future<Output = Result<DnsResponse, NetError>>>>;
+    let r = catch(|| -> Result<(usize, Vec<(usize, usize)>, Vec<usize>, Vec<(String, String)>), String> {
+        SIM.with(|s| *s.borrow_mut() = Sim::new());
+        let gates = Arc::new(Mutex::new(Gates::default()));
+        let prov = GProv { gates: gates.clone() };
+        let mut opts = ResolverOpts::default();
+        opts.timeout = Duration::from_millis(BIG_T);
+        opts.num_concurrent_reqs = 1;
+        opts.server_ordering_strategy = ServerOrderingStrategy::UserProvidedOrder;
+        let ns = Arc::new(NameServer::new(vec![], NameServerConfig::new(ip_of(0), true, vec![ConnectionConfig::udp()]), &opts, prov));
+        let pool = NameServerPool::from_nameservers(vec![ns], Arc::new(PoolContext::new(opts, TlsConfig::new().map_err(|e| format!("tls {e}"))?)));
+        let req = DnsRequest::from_query(Query::new(q_name(), RecordType::A), DnsRequestOptions::default());
+        let flag = Arc::new(Flag(AtomicBool::new(false)));
+        let waker = Waker::from(flag.clone());
+        let mut cx = Context::from_waker(&waker);
+        let mut tasks: Vec<Option<Fut>> = (0..4).map(|_| None).collect();
+        let mut served: Vec<(usize, usize)> = vec![];
+        // ---- the oracle's own bookkeeping (no knowledge of the map): which exchange every task is
+        // attached to, who created it, whether its answer has been delivered to anybody
+        let mut creator_of: HashMap<usize, usize> = HashMap::new(); // exchange -> task
+        let mut attached: HashMap<usize, usize> = HashMap::new(); // alive task -> exchange
+        let mut dropped_creator: std::collections::HashSet<usize> = Default::default(); // exchanges whose creator was dropped
+        let mut delivered: std::collections::HashSet<usize> = Default::default();
+        let mut fails: Vec<(String, String)> = vec![];
+        let answered_by = |r: &Result<DnsResponse, NetError>| -> usize {
+            match r {
+                Ok(resp) => resp.answers.iter().find_map(|rec| if let RData::A(a) = &rec.data { Some(a.0.octets()[2] as usize) } else { None }).unwrap_or(0),
+                Err(_) => 0,
+            }
+        };
+        let name = |x: usize| (b'A' + x as u8) as char;
+        for ev in &evs {
+            match *ev {
+                SEv::Start(x) => {
+                    let before = gates.lock().unwrap().started;
+                    // an exchange is in flight when somebody alive is attached to it and nobody has its answer yet
+                    let in_flight: Vec<usize> = {
+                        let mut v: Vec<usize> = attached.values().copied().filter(|k| !delivered.contains(k)).collect();
+                        v.sort();
+                        v.dedup();
+                        v
+                    };
+                    let mut f: Fut = Box::pin(pool.send(req.clone()).first_answer());
+                    let mut done = None;
+                    for _ in 0..3 {
+                        if let Poll::Ready(r) = f.as_mut().poll(&mut cx) {
+                            done = Some(r);
+                            break;
+                        }
+                    }
+                    let after = gates.lock().unwrap().started;
+                    if after > before {
+                        creator_of.insert(after, x);
+                        if let Some(k) = in_flight.last() {
+                            // the property: a query identical to one in flight shares its upstream exchange
+                            let creator_gone = dropped_creator.contains(k);
+                            fails.push((
+                                format!(
+                                    "task {} started while upstream exchange {} was in flight for {} and did not share it: a further upstream exchange ({}) was started{}",
+                                    name(x),
+                                    k,
+                                    attached.iter().filter(|(_, kk)| *kk == k).map(|(t, _)| name(*t).to_string()).collect::<Vec<_>>().join("+"),
+                                    after,
+                                    if creator_gone { " (the task that created the shared lookup had been dropped)" } else { " (its creator is alive or returned normally)" }
+                                ),
+                                if creator_gone { "dedup-split-after-creator-cancel".to_string() } else { String::new() },
+                            ));
+                        }
+                    }
+                    let k = if after > before { after } else { in_flight.last().copied().unwrap_or(before) };
+                    match done {
+                        Some(r) => {
+                            let by = answered_by(&r);
+                            served.push((x, by));
+                            delivered.insert(by);
+                        }
+                        None => {
+                            attached.insert(x, k);
+                            tasks[x] = Some(f);
+                        }
+                    }
+                }
+                SEv::Drop(x) => {
+                    if tasks[x].take().is_some() {
+                        if let Some(k) = attached.remove(&x) {
+                            if creator_of.get(&k) == Some(&x) {
+                                dropped_creator.insert(k);
+                            }
+                        }
+                    }
+                }
+                SEv::Release(k) => {
+                    let ws: Vec<Waker> = {
+                        let mut g = gates.lock().unwrap();
+                        g.released.insert(k);
+                        let (hit, rest): (Vec<_>, Vec<_>) = std::mem::take(&mut g.wakers).into_iter().partition(|(kk, _)| *kk == k);
+                        g.wakers = rest;
+                        hit.into_iter().map(|(_, w)| w).collect()
+                    };
+                    for w in ws {
+                        w.wake();
+                    }
+                }
+                SEv::Poll(x) => {
+                    if let Some(f) = tasks[x].as_mut() {
+                        let mut done = None;
+                        for _ in 0..3 {
+                            if let Poll::Ready(r) = f.as_mut().poll(&mut cx) {
+                                done = Some(r);
+                                break;
+                            }
+                        }
+                        if let Some(r) = done {
+                            tasks[x] = None;
+                            let by = answered_by(&r);
+                            served.push((x, by));
+                            delivered.insert(by);
+                            if let Some(k) = attached.remove(&x) {
+                                if creator_of.get(&k) == Some(&x) && by != k {
+                                    fails.push((format!("task {} created upstream exchange {} but received the result of {}", name(x), k, by), String::new()));
+                                }
+                            }
+                        }
+                    }
+                }
+            }
+        }
+        let waiting: Vec<usize> = (0..4).filter(|x| tasks[*x].is_some()).collect();
+        let ex = gates.lock().unwrap().started;
+        drop(tasks);
+        Ok((ex, served, waiting, fails))
+    });
+    match r {
+        Err(p) => {
+            let idx = rec.case(line.to_string(), format!("panic {}", p.replace(char::is_whitespace, "_")));
+            rec.fail(idx, format!("the pool panicked: {p}"), "");
+        }
+        Ok(Err(e)) => {
+            let idx = rec.case(line.to_string(), format!("err {}", e.replace(char::is_whitespace, "_")));
+            rec.fail(idx, e, "");
+        }
+        Ok(Ok((ex, served, waiting, fails))) => {
+            let name = |x: usize| ((b'A' + x as u8) as char).to_string();
+            let sv = if served.is_empty() { "-".to_string() } else { served.iter().map(|(x, k)| format!("{}:{}", name(*x), k)).collect::<Vec<_>>().join(",") };
+            let wt = if waiting.is_empty() { "-".to_string() } else { waiting.iter().map(|x| name(*x)).collect::<Vec<_>>().join(",") };
+            let idx = rec.case(line.to_string(), format!("ex={ex} served={sv} waiting={wt}"));
+            rec.stat(&format!("share_upstream_exchanges_{ex}"));
+            if evs.iter().any(|e| matches!(e, SEv::Drop(_))) {
+                rec.stat("share_with_drop");
+            }
+            if served.len() + waiting.len() >= 2 {
+                rec.nontrivial(idx);
+            }
+            for (what, class) in fails {
+                rec.fail(idx, what, &class);
+            }
+        }
+    }
+}
+
+// ------------------------------------------------------------------------------------------------
 // consecutive lookups on one pool, optionally through the retry layer (`options.attempts`)
 // ------------------------------------------------------------------------------------------------
 
@@ -1118,6 +1402,10 @@ pub fn exec(line: &str, rec: &mut Recorder) {
     }
     if t.first() == Some(&"seq") {
         exec_seq(line, &t, rec);
+        return;
+    }
+    if t.first() == Some(&"share") {
+        exec_share(line, &t, rec);
         return;
     }
     let Some(c) = parse_case(&t) else {
@@ -1745,6 +2033,75 @@ fn random_seq(o: &Opts, rec: &mut Recorder) {
     }
 }
 
+/// directed sharing schedules (quick and thorough)
+const SHARE_DIRECTED: &[&str] = &[
+    // everybody joins while the creator is alive; any polling order; late resumes
+    "sA sB sC r1 pA pB pC",
+    "sA sB sC r1 pC pB pA",
+    "sA sB sC sD r1 pB pD pA pC",
+    "sA sB r1 sC pA pB",
+    "sA sB r1 pB sC pA sD r2 pD",
+    // (a) a WAITER dropped mid-flight must not touch the map: the next identical query still joins
+    "sA sB dB sC r1 pA pC",
+    "sA sB sC dB sD r1 pA pC pD",
+    "sA sB dB sC dC sD r1 pD pA",
+    "sA sB sC dC dB sD r1 pA pD",
+    // (b) a waiter resumed late — after its lookup finished and a NEWER lookup was registered under the
+    // same key — must not remove the newer entry: a further query joins lookup 2
+    "sA sB r1 pA sC pB sD r2 pC pD",
+    "sA sB sC r1 pA sD pB pC r2 pD",
+    "sA sB r1 pA sC pB sD pB r2 pD pC",
+    "sA sB sC r1 pA sD pC pB r2 pD",
+    // the creator returns: the key is free again, the next query starts lookup 2
+    "sA r1 pA sB r2 pB",
+    "sA sB r1 pA pB sC r2 pC",
+    // the answer is already there when the query arrives
+    "r1 sA sB r2 pB",
+    // a waiter finishes the lookup before the creator is polled: late callers still get result 1
+    "sA sB r1 pB sC pA sD",
+    // everybody dropped: the lookup is gone, a new query starts afresh
+    "sA dA sB r1 r2 pB",
+    "sA sB dB dA sC r2 pC",
+    // known finding dedup-split-after-creator-cancel: the CREATOR dropped while a waiter still waits
+    "sA sB dA sC r1 pB r2 pC",
+    "sA sB sC dA sD r1 pB pC r2 pD",
+    "sA sB dA sC dC sD r1 pB r3 pD",
+];
+
+fn gen_share(o: &Opts, rec: &mut Recorder) {
+    for l in SHARE_DIRECTED {
+        exec(&format!("share {l}"), rec);
+    }
+    let mut r = Rng::new(o.seed ^ 0x5A4E);
+    for _ in 0..o.n(1500, 60_000) {
+        let len = r.range(3, 14) as usize;
+        let mut started = [false; 4];
+        let mut nstarted = 0usize;
+        let mut toks: Vec<String> = vec![];
+        for _ in 0..len {
+            let pick = r.below(10);
+            let not_started: Vec<usize> = (0..4).filter(|x| !started[*x]).collect();
+            let alive: Vec<usize> = (0..4).filter(|x| started[*x]).collect();
+            if (pick < 4 || alive.is_empty()) && !not_started.is_empty() {
+                let x = *r.pick(&not_started);
+                started[x] = true;
+                nstarted += 1;
+                toks.push(format!("s{}", (b'A' + x as u8) as char));
+            } else if pick < 6 && !alive.is_empty() {
+                toks.push(format!("d{}", (b'A' + *r.pick(&alive) as u8) as char));
+            } else if pick < 8 {
+                toks.push(format!("r{}", r.range(1, (nstarted as u64 + 1).min(8))));
+            } else if !alive.is_empty() {
+                toks.push(format!("p{}", (b'A' + *r.pick(&alive) as u8) as char));
+            }
+        }
+        if toks.is_empty() {
+            continue;
+        }
+        exec(&format!("share {}", toks.join(" ")), rec);
+    }
+}
+
 /// paced (real clock) cases: families around the deadline.  Latencies sit on a coarse grid, the
 /// timeout between grid points, so that every decision has a margin of ≥ 40 ms by construction.
 fn gen_b(o: &Opts) -> Vec<String> {
@@ -1931,6 +2288,8 @@ pub fn run(o: &Opts, rec: &mut Recorder) {
     eprintln!("c18: +random {} cases {:?}", rec.cases.len(), t0.elapsed());
     random_seq(o, rec);
     eprintln!("c18: +seq {} cases {:?}", rec.cases.len(), t0.elapsed());
+    gen_share(o, rec);
+    eprintln!("c18: +share {} cases {:?}", rec.cases.len(), t0.elapsed());
     run_paced(gen_b(o), rec);
     eprintln!("c18: +paced {} cases {:?}", rec.cases.len(), t0.elapsed());
     exec("real 300 240", rec);
